@@ -26,6 +26,7 @@ func init() {
 		ruleF3(c, "C10.W8")
 		ruleRefused(c, "C10.W9")
 		ruleT1(c, "C10.W10")
+		ruleDoneMeansWritten(c, "C10.W12")
 	}
 }
 
